@@ -69,6 +69,7 @@ type interpreter struct {
 	tabCache   map[string][]uint64
 	setupCache map[string]value
 	varMemo    map[int]*smt.Term
+	stubbed    map[string]bool
 
 	p     *pathState
 	sched *scheduler
@@ -547,6 +548,11 @@ func callSSA(i *interpreter, caller *frame, callpos token.Pos, fn *ssa.Function,
 		fn:     fn,
 	}
 	i.called[fn]++
+	if i.p != nil && i.p.stubs != nil && fn.Parent() == nil {
+		if st, ok := i.p.stubs[fn.String()]; ok {
+			return call(i, caller, callpos, st, args)
+		}
+	}
 	if fn.Parent() == nil {
 		if ext := findExternal(fn); ext != nil {
 			return ext(fr, args)
@@ -746,6 +752,7 @@ func newInterpreter(prog *ssa.Program, cfg *Config) (*interpreter, error) {
 		tabCache:   map[string][]uint64{},
 		setupCache: map[string]value{},
 		varMemo:    map[int]*smt.Term{},
+		stubbed:    map[string]bool{},
 	}
 	runtimePkg := prog.ImportedPackage("runtime")
 	if runtimePkg == nil {
